@@ -3,6 +3,7 @@ package core
 import (
 	"os"
 	"sort"
+	"strings"
 	"testing/synctest"
 	"time"
 
@@ -55,16 +56,17 @@ type FDriver struct {
 	// == 0 (HoldMod 0: none); about every second arrival at a stall site is held there (at most
 	// MaxHolds per run): the goroutine is not resumed until HoldFor of simulated time has passed, or,
 	// with HoldFor 0, until nothing else can run. ReleaseAll ends all holds (fault free epilogue).
-	HoldMod   int
-	HoldSeed  uint64
-	HoldFor   time.Duration
-	MaxHolds  int
-	Holds     int // how many goroutines were held (fault count)
-	held      map[interface{}]time.Time
-	seen      map[interface{}]bool
-	arrivals  map[string]uint64
-	siteHolds map[string]int
-	released  bool
+	HoldMod              int
+	HoldSeed             uint64
+	HoldFor              time.Duration
+	MaxHolds             int
+	Holds                int // how many goroutines were held (fault count)
+	held                 map[interface{}]time.Time
+	seen                 map[interface{}]bool
+	arrivals             map[string]uint64
+	siteHolds            map[string]int
+	released             bool
+	finished, deadlocked bool
 	// Trace, if set, is told every resumed site (debugging aid, VERIF_FTRACE=1).
 	Trace func(site string, runnable int)
 }
@@ -98,6 +100,37 @@ func (d *FDriver) runnable() []FWaiter { return d.parked(true) }
 
 // Parked returns all parked goroutines in canonical order.
 func (d *FDriver) Parked() []FWaiter { return d.parked(false) }
+
+// Finish ends scheduling at the end of a run: all stalls end, everything runs to rest, and if goroutines
+// are then still waiting for locks that nobody will release (a lock order cycle, a lock leaked by a
+// goroutine that exited) that is reported as a failure and they stay parked — the bubble then reports
+// them as blocked for ever — instead of being set free to spin. Otherwise scheduling is switched off and
+// everything runs freely from here on. It can be called more than once.
+func (d *FDriver) Finish(c *Ctx) {
+	if d.finished {
+		return
+	}
+	d.ReleaseAll()
+	d.Settle(0, 1<<30)
+	synctest.Wait()
+	var stuck []string
+	for _, w := range d.S.Waiters() {
+		if w.Lock && !w.Runnable {
+			stuck = append(stuck, w.Site)
+		}
+	}
+	d.finished = true
+	if len(stuck) > 0 {
+		sort.Strings(stuck)
+		d.deadlocked = true
+		c.Fail("no-lock-deadlock", "waiting-for-locks:"+strings.Join(stuck, ","), "at the end of the run %d goroutines wait for locks that no runnable goroutine holds (lock order cycle or leaked lock): %v", len(stuck), stuck)
+		return
+	}
+	d.S.Off()
+}
+
+// Deadlocked: Finish found goroutines waiting for locks for ever.
+func (d *FDriver) Deadlocked() bool { return d.deadlocked }
 
 // ReleaseAll ends every hold and plans no more (the fault free epilogue).
 func (d *FDriver) ReleaseAll() {
